@@ -190,7 +190,7 @@ func c04Mutants(rng *rand.Rand, p cashu.Proof, out client.Output, sig cashu.Blin
 }
 
 func runC04(r *core.Run) {
-	r.Rule("cases = (keyset, denomination, secret kind) valid proofs really minted by the mint, each with every single-field value mutation (amount, id, C, secret) presented alone / after / before a valid proof, through Swap and MeltTokens; non-trivial = distinct (keyset#, denomination, mutation class, position, path) tuples for which the mint gave a verdict; valid proofs must be accepted, mutants rejected")
+	r.Rule("cases = (keyset, denomination, secret kind) valid proofs really minted by the mint, each with every single-field value mutation (amount, id, C, secret) presented alone / after / before a valid proof, through Swap, MeltTokens and MeltTokens on a quote for the mint's own invoice (settled inside the mint); non-trivial = distinct (keyset#, denomination, mutation class, position, path) tuples for which the mint gave a verdict; valid proofs must be accepted, mutants rejected")
 	r.Assume("refcrypto (math/big implementation of NUT-00) decides which proofs are genuine; SQLite and the LN model are trusted")
 	thorough := !quick(r)
 	rng := r.Rng("c04")
@@ -334,6 +334,22 @@ func runC04(r *core.Run) {
 	}
 	// a reusable melt quote for rejected mutants (amount 1)
 	rejQuote, _ := meltInv(1)
+	// and one for the mint's own invoice: such a melt is settled inside the mint, without a payment
+	meltOwn := func() string {
+		mq, err := env.RequestMintQuote(1, "")
+		if err != nil {
+			return ""
+		}
+		q, err := env.RequestMeltQuote(mq.PaymentRequest, 0)
+		if err != nil {
+			return ""
+		}
+		return q.Id
+	}
+	rejOwnQuote := meltOwn()
+	if rejOwnQuote == "" {
+		r.Inconclusive("no melt quote for the mint's own invoice")
+	}
 
 	trySwap := func(inputs cashu.Proofs) error {
 		// outputs: per input the binary split of its claimed amount (denominations the
@@ -384,16 +400,22 @@ func runC04(r *core.Run) {
 				if thorough || (mi+ci)%4 == 0 {
 					paths = append(paths, "melt")
 				}
+				if rejOwnQuote != "" && (thorough || (mi+ci)%4 == 2) {
+					paths = append(paths, "melt-own-invoice")
+				}
 				for _, path := range paths {
 					sig := fmt.Sprintf("ks%d/d%d/%s/%s/%s/%d", base.ks, base.p.Amount, m.class, pos, path, mi)
 					if !r.Want(sig) {
 						continue
 					}
 					var err error
-					if path == "swap" {
+					switch path {
+					case "swap":
 						err = trySwap(inputs)
-					} else {
+					case "melt":
 						_, err = env.Melt(rejQuote, inputs)
+					default:
+						_, err = env.Melt(rejOwnQuote, inputs)
 					}
 					nMutCases++
 					r.Eval(fmt.Sprintf("ks%d/d%d/%s/%s/%s", base.ks, base.p.Amount, m.class, pos, path), true)
@@ -404,6 +426,8 @@ func runC04(r *core.Run) {
 							map[string]any{"original": base.p, "inputs": inputs})
 						if path == "melt" {
 							rejQuote, _ = meltInv(1)
+						} else if path == "melt-own-invoice" {
+							rejOwnQuote = meltOwn()
 						}
 					}
 				}
